@@ -133,13 +133,18 @@ class Unit:
             self.map.append(o)
 
 
-STD_RULES = ["R7", "R20", "R27", "R29", "R30", "R31", "R35", "R37", "R38", "R39"]   # definitional unfoldings of std combinators, safe to apply anywhere
+STD_RULES = ["R7", "R20", "R27", "R29", "R30", "R31", "R35", "R37", "R38", "R39", "R40"]   # definitional unfoldings of std combinators, safe to apply anywhere
+
+
+ALWAYS_RULES = ["R40", "R38", "R29", "R35"]   # closure-parameter renaming, unwrap_or_else, bool::then, get_or_insert_with: type-agnostic
 
 
 def apply_rules(text, names, unit, where):
-    names = list(names)
+    names = [n for n in names if n]
     if "STD" in names:
         names = [n for n in names if n != "STD"] + [r for r in STD_RULES if r not in names]
+    # rewrites that do not depend on the receiver's type apply to every extracted body
+    names = names + [r for r in ALWAYS_RULES if r not in names]
     for r in names:
         if not r:
             continue
